@@ -244,17 +244,21 @@ func c08Check(src []byte, m fmtMode) (bool, []c08Fail) {
 	o := dumpOpts{simplify: m.simplify, resolve: true}
 	d0, d1 := dumpNode(f0, o), dumpNode(f1, o)
 	if d0 != d1 {
-		on := o
-		on.noComments = true
-		onr := o
-		onr.resolve = false
-		if dumpNode(f0, onr) == dumpNode(f1, onr) {
-			// same tree, but an identifier is bound to a different declaration
-			fails = append(fails, c08Fail{"reference-rebound", firstDiff(d0, d1)})
-		} else if dumpNode(f0, on) == dumpNode(f1, on) {
-			fails = append(fails, c08Fail{"comment-moved:" + commentMoveTag(f0, f1), firstDiff(d0, d1)})
-		} else {
+		bare := o // neither comments nor bindings: the tree proper
+		bare.noComments, bare.resolve = true, false
+		if dumpNode(f0, bare) != dumpNode(f1, bare) {
 			fails = append(fails, c08Fail{"tree-changed", firstDiff(d0, d1)})
+		} else {
+			oc := o // comments only
+			oc.resolve = false
+			if c0, c1 := dumpNode(f0, oc), dumpNode(f1, oc); c0 != c1 {
+				fails = append(fails, c08Fail{"comment-moved:" + commentMoveTag(f0, f1), firstDiff(c0, c1)})
+			}
+			ob := o // bindings only: same tree, but an identifier is bound to a different declaration
+			ob.noComments = true
+			if b0, b1 := dumpNode(f0, ob), dumpNode(f1, ob); b0 != b1 {
+				fails = append(fails, c08Fail{"reference-rebound", firstDiff(b0, b1)})
+			}
 		}
 	}
 	out2, err, pan := c08Format(out, m)
@@ -315,8 +319,8 @@ func c08Class(kind string, m fmtMode, src []byte, origin string) string {
 		// a tree change is attributable to a comment / -s shape only if no significant token was altered,
 		// added or (for comment shapes) reordered: tokens may only have been lost
 		if out, err, _ := c08Format(src, m); err == nil {
-			lostOnlyOrdered = c08OnlyLostTokens(src, out, true)
-			lostOnly = lostOnlyOrdered || c08OnlyLostTokens(src, out, false)
+			lostOnlyOrdered = c08OnlyLostTokens(src, out, true, m.simplify)
+			lostOnly = lostOnlyOrdered || c08OnlyLostTokens(src, out, false, m.simplify)
 		}
 	}
 	corpusLoss := kind == "comment-lost" && !derived // an unmutated repository file loses a comment
@@ -365,10 +369,11 @@ func c08Class(kind string, m fmtMode, src []byte, origin string) string {
 	case m.simplify && (kind == "output-does-not-parse" || kind == "second-fmt-fails") && hasQuotedLabelNamedByReference(f0) && !c08FailsWithoutSimplify(src, m, kind):
 		// `{"foo": y, [foo]: 1}`: the captured reference makes the output invalid (only with -s)
 		return v + "-simplify-unquotes-label-that-a-reference-names:" + kind
+	case m.simplify && kind == "tree-changed" && hasQuotedLabelWithIdentSibling(f0):
+		// (here the altered token — a quoted label printed as an identifier — IS the defect)
+		return v + "-simplify-unquotes-label-with-identifier-sibling"
 	case m.simplify && kind == "tree-changed" && !lostOnly:
 		return strict
-	case m.simplify && kind == "tree-changed" && hasQuotedLabelWithIdentSibling(f0):
-		return v + "-simplify-unquotes-label-with-identifier-sibling"
 	case m.simplify && kind == "tree-changed" && hasAnyPatternWithAttr(f0):
 		return v + "-simplify-any-pattern-with-attribute-becomes-ellipsis"
 	}
@@ -731,9 +736,21 @@ func runC08(c *Cfg) {
 	for _, ch := range chains {
 		chainIns = append(chainIns, ch.c08Input)
 	}
-	for _, m := range c08Modes[:3] { // v2, v2 -s, v1
+	var plainIns []c08Input // the legacy printer gets the chains without comments
+	var plainChains []c08ChainInput
+	for _, ch := range chains {
+		if !bytes.Contains(ch.src, []byte("//")) {
+			plainIns = append(plainIns, ch.c08Input)
+			plainChains = append(plainChains, ch)
+		}
+	}
+	for _, m := range c08DefaultModes {
 		c08Sweep(c, m, chainIns, "chain-program")
 		c08ChainValues(c, m, chains)
+	}
+	for _, m := range c08LegacyModes {
+		c08Sweep(c, m, plainIns, "chain-program")
+		c08ChainValues(c, m, plainChains)
 	}
 	c08Log("chain programs done: %d", len(chains))
 
